@@ -317,16 +317,23 @@ class Models(Structural):
         return self.full(shape, 1, dtype_name(dtype, 'float'))
 
     @reg('numpy.zeros_like')
-    def np_zeros_like(self, a, dtype=None):
+    def np_zeros_like(self, a, dtype=None, shape=None):
         from .lib import dtype_name
         a = self.asarray(a)
-        return self.full(a.shape, 0, dtype_name(dtype, a.dtype))
+        return self.full(self._like_shape(shape, a), 0, dtype_name(dtype, a.dtype))
+
+    def _like_shape(self, shape, a):
+        if shape is None:
+            return a.shape
+        if isinstance(shape, (list, tuple)):
+            return tuple(N(s) for s in shape)
+        return (N(shape),)
 
     @reg('numpy.ones_like')
-    def np_ones_like(self, a, dtype=None):
+    def np_ones_like(self, a, dtype=None, shape=None):
         from .lib import dtype_name
         a = self.asarray(a)
-        return self.full(a.shape, 1, dtype_name(dtype, a.dtype))
+        return self.full(self._like_shape(shape, a), 1, dtype_name(dtype, a.dtype))
 
     def asarray(self, x):
         if is_arr(x):
